@@ -561,7 +561,7 @@ func TestVerif(t *testing.T) {
 		if r.Thorough() {
 			depth = 3
 		}
-		for _, pr := range []proto.Protocol{version.Minecraft_1_12_2.Protocol, version.Minecraft_1_21_4.Protocol} {
+		for _, pr := range []proto.Protocol{version.Minecraft_1_12_2.Protocol, version.Minecraft_1_20.Protocol, version.Minecraft_1_21_4.Protocol} {
 			pr := pr
 			res := bfs.Explore(bfs.Config[c16Ev]{
 				Name: fmt.Sprintf("proto=%d", pr), Ops: evs, Depth: depth, Shard: r.Shard, NShards: r.NShards, Deadline: r.DeadlineTime(),
